@@ -42,6 +42,21 @@ def effBurst (caps : Caps) (burst : Nat) : Nat :=
   else if burst = BURST_WRAP ∧ caps.wrap = true then BURST_WRAP
   else BURST_FIXED
 
+/-! ### In-tree users of `AXIBurst2Beat`
+
+  `grep AXIBurst2Beat litex/`: the only instantiation is in `AXI2AXILite` (axi_full_to_axi_lite.py),
+  `AXIBurst2Beat(ax_buffer.source, ax_beat)` - no `capabilities` argument, i.e. the constructor default
+  `{BURST_FIXED, BURST_INCR, BURST_WRAP}`; `AXI2Wishbone` = `AXI2AXILite` + `AXILite2Wishbone` inherits it.
+  The harness reads the set the real user passes at elaboration time and compares it with `userCaps`. -/
+
+/-- Capability set the in-tree user passes to its `AXIBurst2Beat` (`none`: not a known user). -/
+def userCaps (user : String) : Option Caps :=
+  if user = "axi2axilite" ∨ user = "axi2wishbone" then some Caps.all else none
+
+/-- The burst types a user's expander serves per the specification: exactly those in its capability set. -/
+def Caps.serves (caps : Caps) (burst : Nat) : Bool :=
+  burst == BURST_FIXED || (burst == BURST_INCR && caps.incr) || (burst == BURST_WRAP && caps.wrap)
+
 /-- Legal burst on an `aw`-bit address bus for (effective) burst type `eb`.
     INCR : the `len+1` transfers of `2^size` bytes, counted from the aligned address, stay inside one 4 KB page
            (this implies `(len+1)·2^size ≤ 4096`);
